@@ -352,6 +352,7 @@ def run_C07(run):
     # node-set and a number over values that are not small dyadic rationals (0.1 + 0.2 against '0.3', 2^53 + 1,
     # 19- and 20-digit integers); the reply is compared bit for bit
     float_stage(run, "cmp")
+    float_stage(run, "pred")      # the same comparisons as predicates of /r/*[...] (Select)
 
 
 def run_C08(run):
@@ -373,6 +374,9 @@ def run_C09(run):
         run.gen_and_replay("MC_Expr", consts(VAL_EXPR, Family=fam), name="str-" + fam[3:], kind="eval")
     tr = run.drive("values-str", 3000 if q else 50000, extra=["-nodes", "12"])
     run.validate_batch(tr, "str-flowB")
+    # exact binary64 model (XFloat.tla): substring() with start/length that are halves, inexact sums, NaN, infinities and
+    # magnitudes beyond 2^63 (round() computed on the exact value), string-length()/concat() over string() of inexact numbers
+    float_stage(run, "substr")
 
 
 def run_C04(run):
